@@ -129,6 +129,33 @@ class NpProxy:
         return r
 
     @staticmethod
+    def eye(*a, **k):
+        k.pop("dtype", None)
+        return numpy.eye(*a, **k).astype(object)  # writable with symbols (a float64 identity would reject them)
+
+    @staticmethod
+    def identity(n, dtype=None, **k):
+        return numpy.identity(n).astype(object)
+
+    @staticmethod
+    def full(shape, fill_value, dtype=None, **k):
+        a = numpy.empty(shape, dtype=object)
+        a.fill(fill_value)
+        return a
+
+    @staticmethod
+    def ones_like(a, dtype=None, **kw):
+        r = numpy.empty(numpy.shape(a), dtype=object)
+        r.fill(1.0)
+        return r
+
+    @staticmethod
+    def empty_like(a, dtype=None, **kw):
+        r = numpy.empty(numpy.shape(a), dtype=object)
+        r.fill(0.0)
+        return r
+
+    @staticmethod
     def ones(shape, dtype=None, **kw):
         a = numpy.empty(shape, dtype=object)
         a.fill(1.0)
